@@ -1177,6 +1177,9 @@ class Executor:
             return SMatch(groups)
         if isinstance(obj, SMatch) and name == "groups":
             return obj.groups()
+        if type(obj) is list and name == "append":
+            obj.append(args[0])
+            return None
         if isinstance(obj, (str, SStr, Rope)):
             return self.str_method(obj, name, args, kwargs)
         if isinstance(obj, SBytes):
